@@ -24,7 +24,7 @@ ASSUMPTIONS = ['reads of the Go runtime\'s own files outside T (/proc, /sys, /et
 
 ATTEMPTS = ['symlink-abs-inside-then-out', 'symlink-abs-dir-then-out', 'parent-dotdot', 'parent-prefix-sibling', 'parent-root-file-sibling', 'symlink-file', 'symlink-file-child', 'symlink-dir-input', 'symlink-dir-parent', 'parent-absolute',
             'parent-wildcard', 'symlink-chain', 'reenter-path', 'reenter-symlink', 'symlink-absolute', 'control',
-            'parent-list-mixed', 'parent-sibling-link', 'parent-list-mixed-missing']
+            'parent-list-mixed', 'parent-sibling-link', 'parent-list-mixed-missing', 'chain-sibling-link']
 SPELLINGS = ['name', 'dot', 'dotdot', 'absolute', 'via-symlink', 'empty', 'long-empty', 'trailing-slash', 'dot-slash']
 ROOTS = ['root', 'conf', 'r']
 
@@ -131,6 +131,16 @@ def build(T, case, decoy_mode):
         if decoy_mode != 'absent':
             write(os.path.join(T, 'outside', 'decoy.' + other), other, dec)
         body['$parent'] = 'inner'
+    elif a == 'chain-sibling-link':
+        # the parent by file name (in.child -> in) is provided by a file inside the root and, under another extension, by a link
+        # that leaves the root (dangling when the decoys are absent)
+        pairs = [('json', 'yaml'), ('yaml', 'json'), ('toml', 'json'), ('json', 'toml'), ('yml', 'toml')]
+        realext, linkext = pairs[salt % len(pairs)]
+        write(os.path.join(root, 'par.' + realext), 'yaml' if realext == 'yml' else realext, {'real': True, 'trace': ['par']})
+        os.symlink('../outside/decoy.' + linkext, os.path.join(root, 'par.' + linkext))
+        if decoy_mode != 'absent':
+            write(os.path.join(T, 'outside', 'decoy.' + linkext), linkext, dec)
+        inp = 'par.child.' + ext
     if body is not None:
         write(os.path.join(root, inp), ext, body)
     os.symlink(R, os.path.join(T, 'rootlink'))
